@@ -415,4 +415,222 @@ Proof.
   exact (find_optimal_solution_ok W lvs fmain (solve W lvs fmain k) lv st ws first st1 s1 E).
 Qed.
 
+
+(* ------------------------------------------------------------------ *)
+(* 3. fuel *)
+Section Fuel.
+Variable W : wsettings.
+Variable lvs : list lview.
+Variable child_solve : sst -> lview -> N * N -> first_decision -> sst * option solution.
+Variable lv : lview.
+
+Notation potential' := (potential W lvs child_solve lv).
+Notation both' := (both W lvs child_solve lv).
+Notation walk_step' := (walk_step W lvs child_solve lv).
+Notation walk' := (walk W lvs child_solve lv).
+
+Definition len (n : node) : nat := length (n_rest n).
+
+Lemma potential_len st nd b n : In n (snd (potential' st nd b)) -> S (len n) = len nd.
+Proof.
+  unfold potential, len. destruct (n_rest nd) as [|r rest]; [intros []|].
+  destruct (child_lines_solutions _ _ _ _ _ _ _ _ _ _ _ _ _ _) as [st' sols]. cbn [snd].
+  intros Hn. apply in_map_iff in Hn. destruct Hn as (k & <- & _). reflexivity.
+Qed.
+
+Definition from (x n : node) : Prop := exists st b, In n (snd (potential' st x b)).
+
+Lemma both_from st ind n : In n (snd (both' st ind)) -> from ind n.
+Proof.
+  unfold both. destruct (potential' st ind true) as [st1 a] eqn:E1. destruct (potential' st1 ind false) as [st2 b] eqn:E2.
+  cbn [snd]. intros H. apply in_app_or in H. destruct H as [H|H].
+  - exists st, true. rewrite E1. exact H.
+  - exists st1, false. rewrite E2. exact H.
+Qed.
+
+Definition step_src (nd : node) (indiff : option node) (s : wstep) : Prop :=
+  match s with
+  | WS_stop r => r <> W_fuel
+  | WS_forward n i => from nd n /\ (i = indiff \/ (indiff = None /\ i = Some nd))
+  | WS_restart n => from nd n \/ exists ind, indiff = Some ind /\ from ind n
+  end.
+
+Lemma finish_src (Q : node -> Prop) succ : (forall n, In n succ -> Q n) ->
+  match finish succ with WS_restart n => Q n | WS_forward _ _ => False | WS_stop r => r <> W_fuel end.
+Proof.
+  intros H. unfold finish. destruct succ as [|n [|m l]]; try discriminate. apply H. left; reflexivity.
+Qed.
+
+Lemma kept_in li sols : forall best acc n,
+  In n (snd (fold_left (fun (acc : list N * list node) (n : node) =>
+                          if n_pen n <? best_at (fst acc) li then (upd_at li (fun _ => n_pen n) (fst acc), snd acc ++ [n]) else acc)
+                       sols (best, acc))) -> In n acc \/ In n sols.
+Proof.
+  induction sols as [|m l IH]; intros best acc n H; cbn [fold_left] in H; [left; exact H|].
+  cbn [fst snd] in H. destruct (n_pen m <? best_at best li).
+  - apply IH in H. destruct H as [H|H]; [|right; right; exact H]. apply in_app_or in H. destruct H as [H|[H|[]]]; [left; exact H|right; left; exact H].
+  - apply IH in H. destruct H as [H|H]; [left; exact H|right; right; exact H].
+Qed.
+
+Lemma walk_step_src nd indiff best st : step_src nd indiff (fst (fst (walk_step' nd indiff best st))).
+Proof.
+  unfold walk_step.
+  destruct (if w_max W <? last_line_length_of nd then indiff else None) as [ind|] eqn:Eover.
+  { assert (Hi : indiff = Some ind) by (destruct (w_max W <? last_line_length_of nd); [exact Eover|discriminate]).
+    pose proof (both_from st ind) as Hb. destruct (both' st ind) as [st' succ]. cbn [fst snd] in *.
+    pose proof (finish_src (from ind) succ Hb) as Hf. destruct (finish succ); cbn; try exact Hf; [destruct Hf|]. right. exists ind. split; assumption. }
+  destruct (n_rest nd) as [|r rest] eqn:Hrest; [cbn; discriminate|].
+  assert (Hafter : forall succ indiff' st', (forall n, In n succ -> from nd n) -> (indiff' = indiff \/ (indiff = None /\ indiff' = Some nd)) ->
+            step_src nd indiff (fst (fst (match succ with
+                               | [n] => (WS_forward n indiff', best, st')
+                               | _ => match indiff' with
+                                      | Some ind => let (st'', more) := both' st' ind in (finish (succ ++ more), best, st'')
+                                      | None => (finish succ, best, st')
+                                      end
+                               end)))).
+  { intros succ indiff' st' Hs Hi.
+    assert (Hgen : step_src nd indiff (fst (fst (match indiff' with
+                                      | Some ind => let (st'', more) := both' st' ind in (finish (succ ++ more), best, st'')
+                                      | None => (finish succ, best, st')
+                                      end)))).
+    { destruct indiff' as [ind|].
+      - pose proof (both_from st' ind) as Hb. destruct (both' st' ind) as [st'' more]. cbn [fst snd] in *.
+        assert (Hall : forall n, In n (succ ++ more) -> from nd n \/ from ind n)
+          by (intros n Hn; apply in_app_or in Hn; destruct Hn as [Hn|Hn]; [left; apply Hs; exact Hn|right; apply Hb; exact Hn]).
+        pose proof (finish_src _ _ Hall) as Hf. destruct (finish (succ ++ more)); cbn; try exact Hf; [destruct Hf|].
+        destruct Hf as [Hf|Hf]; [left; exact Hf|]. destruct Hi as [Hi|(Hi1 & Hi2)].
+        + right. exists ind. split; [symmetry; exact Hi|exact Hf].
+        + injection Hi2 as <-. left. exact Hf.
+      - cbn [fst]. pose proof (finish_src _ _ Hs) as Hf. destruct (finish succ); cbn; try exact Hf; [destruct Hf|]. left. exact Hf. }
+    destruct succ as [|n [|m l]]; try exact Hgen. cbn [fst]. split; [apply Hs; left; reflexivity|exact Hi]. }
+  destruct (get_formatting_requirement (lv_type lv) (tr_win r) (tr_ty r) (tr_inv r) (tr_stk r) (n_data nd) (n_nli nd)).
+  - (* Indifferent *)
+    assert (Hp : forall n, In n (snd (potential' st nd false)) -> from nd n) by (intros n Hn; exists st, false; exact Hn).
+    destruct (potential' st nd false) as [st' succ]. cbn [snd] in Hp.
+    apply Hafter; [exact Hp|]. destruct indiff as [ind|]; [left; reflexivity|right; split; reflexivity].
+  - (* Invalid *)
+    destruct indiff as [ind|]; [|cbn; discriminate].
+    pose proof (both_from st ind) as Hb. destruct (both' st ind) as [st' succ]. cbn [fst snd] in *.
+    pose proof (finish_src (from ind) succ Hb) as Hf. destruct (finish succ); cbn; try exact Hf; [destruct Hf|]. right. exists ind. split; [reflexivity|assumption].
+  - (* MustBreak *)
+    assert (Hp : forall n, In n (snd (potential' st nd true)) -> from nd n) by (intros n Hn; exists st, true; exact Hn).
+    destruct (potential' st nd true) as [st' sols]. cbn [snd] in Hp.
+    pose proof (kept_in (N.to_nat (n_nli nd)) sols best []) as Hk.
+    destruct (fold_left _ sols (best, [])) as [best' kept]. cbn [fst snd] in *.
+    assert (Hall : forall n, In n kept -> from nd n) by (intros n Hn; destruct (Hk n Hn) as [[]|H]; apply Hp; exact H).
+    pose proof (finish_src _ _ Hall) as Hf. destruct (finish kept); cbn; try exact Hf; [destruct Hf|]. left. exact Hf.
+  - (* MustNotBreak *)
+    assert (Hp : forall n, In n (snd (potential' st nd false)) -> from nd n) by (intros n Hn; exists st, false; exact Hn).
+    destruct (potential' st nd false) as [st' succ]. cbn [snd] in Hp.
+    apply Hafter; [exact Hp|left; reflexivity].
+Qed.
+
+Lemma from_len x n : from x n -> S (len n) = len x.
+Proof. intros (st & b & H). eapply potential_len; exact H. Qed.
+
+Definition base (nd : node) (indiff : option node) : nat := match indiff with Some ind => len ind | None => len nd end.
+
+(* the inner loops never run out of fuel: f2 exceeds the tokens left, f1 the tokens left at the backtracking point *)
+Theorem walk_no_fuel : forall f1 f2 nd indiff best st,
+  (len nd < f2)%nat -> (base nd indiff < f1)%nat -> (len nd <= base nd indiff)%nat ->
+  fst (fst (walk' f1 f2 nd indiff best st)) <> W_fuel.
+Proof.
+  induction f1 as [|f1 IH1]; [intros; lia|].
+  induction f2 as [|f2 IH2]; intros nd indiff best st H2 H1 Hle; [lia|].
+  cbn [walk]. pose proof (walk_step_src nd indiff best st) as Hs.
+  destruct (walk_step' nd indiff best st) as [[s best'] st']. cbn [fst] in Hs.
+  destruct s as [r|n i|n]; cbn [fst].
+  - exact Hs.
+  - destruct Hs as (Hn & Hi). apply from_len in Hn. apply IH2.
+    + lia.
+    + destruct Hi as [->|(-> & ->)]; unfold base in *; [destruct indiff; lia|lia].
+    + destruct Hi as [->|(-> & ->)]; unfold base in *; [destruct indiff; lia|lia].
+  - assert (Hn : (S (len n) <= base nd indiff)%nat).
+    { destruct Hs as [Hs|(ind & -> & Hs)]; apply from_len in Hs; unfold base in *; lia. }
+    apply IH1; unfold base; fold (len n); lia.
+Qed.
+
+(* the main loop pops at most iteration_max + 2 nodes: with that much fuel (+1) the out-of-fuel value is unreachable *)
+Theorem main_loop_no_fuel : forall fuel h iter best st,
+  (N.to_nat iter <= N.to_nat (w_iter W) + 1)%nat ->
+  (N.to_nat (w_iter W) + 2 < fuel + N.to_nat iter)%nat ->
+  snd (main_loop W lvs child_solve lv fuel h iter best st) <> SR_fuel.
+Proof.
+  induction fuel as [|f IH]; intros h iter best st Hi Hf; [lia|].
+  cbn [main_loop]. destruct (heap_pop h) as [[nd h']|]; [|cbn; discriminate].
+  destruct (w_iter W <? iter) eqn:Elim; [cbn; discriminate|].
+  apply N.ltb_ge in Elim.
+  assert (Hi' : (N.to_nat (iter + 1) <= N.to_nat (w_iter W) + 1)%nat) by lia.
+  assert (Hf' : (N.to_nat (w_iter W) + 2 < f + N.to_nat (iter + 1))%nat) by lia.
+  destruct (n_rest nd) as [|r rest] eqn:Hrest; [cbn; discriminate|].
+  destruct (best_at best (N.to_nat (N.pred (n_nli nd))) <? n_pen nd); [apply IH; assumption|].
+  pose proof (walk_no_fuel (S (length (r :: rest))) (S (length (r :: rest))) nd None best st) as Hw.
+  unfold base, len in Hw. rewrite Hrest in Hw. specialize (Hw ltac:(lia) ltac:(lia) ltac:(lia)).
+  destruct (walk' (S (length (r :: rest))) (S (length (r :: rest))) nd None best st) as [[res best'] st'].
+  cbn [fst] in Hw. destruct res; try (apply IH; assumption). congruence.
+Qed.
+
+Corollary find_optimal_solution_no_fuel st ws first :
+  snd (find_optimal_solution W lvs (main_fuel W) child_solve lv st ws first) <> SR_fuel.
+Proof.
+  unfold find_optimal_solution. destruct (lv_recs lv) as [|r rest]; [cbn; discriminate|].
+  destruct (match first with FD_Break => _ | FD_Continue line_length can_break => _ end) as [[is_break lll] bcb].
+  destruct (_ && negb is_break); [cbn; discriminate|].
+  destruct (child_lines_solutions _ _ _ _ _ _ _ _ _ _ _ _ _ _) as [st1 sols].
+  apply main_loop_no_fuel; unfold main_fuel; cbn; lia.
+Qed.
+End Fuel.
+
+(* ------------------------------------------------------------------ *)
+(* 4. signature facts that are not syntactic.
+   (a) Beyond its first record, the search reads of the line only its index, type and token list: the records of
+       the remaining tokens travel in the nodes (n_rest), the context count is not read at all.
+   (b) When a line starts with a break (FirstDecision::Break and the first token's invariant is not MustNotBreak)
+       the spaces_before of its first token is not read. *)
+Section Signature.
+Variable W : wsettings.
+Variable lvs : list lview.
+Variable fm : nat.
+Variable cs : sst -> lview -> N * N -> first_decision -> sst * option solution.
+Variables (i : nat) (t : LogicalLineType) (lvl : N) (tp : bool) (g : list N) (c1 c2 : nat) (recs1 recs2 : list trec).
+
+Let lvA := mkLV i t lvl tp g recs1 c1.
+Let lvB := mkLV i t lvl tp g recs2 c2.
+
+Lemma walk_step_sig nd indiff best st : walk_step W lvs cs lvA nd indiff best st = walk_step W lvs cs lvB nd indiff best st.
+Proof. reflexivity. Qed.
+
+Lemma walk_sig : forall f1 f2 nd indiff best st, walk W lvs cs lvA f1 f2 nd indiff best st = walk W lvs cs lvB f1 f2 nd indiff best st.
+Proof.
+  induction f1 as [|f1 IH1]; induction f2 as [|f2 IH2]; intros nd indiff best st; try reflexivity; cbn [walk]; rewrite walk_step_sig;
+    destruct (walk_step W lvs cs lvB nd indiff best st) as [[s best'] st']; destruct s as [r|n k|n]; try reflexivity; try apply IH2; apply IH1.
+Qed.
+
+Lemma main_loop_sig : forall fuel h iter best st, main_loop W lvs cs lvA fuel h iter best st = main_loop W lvs cs lvB fuel h iter best st.
+Proof.
+  induction fuel as [|f IH]; intros h iter best st; [reflexivity|]. cbn [main_loop].
+  destruct (heap_pop h) as [[nd h']|]; [|reflexivity].
+  destruct (w_iter W <? iter); [reflexivity|].
+  destruct (n_rest nd) as [|r rest]; [reflexivity|].
+  destruct (best_at best (N.to_nat (N.pred (n_nli nd))) <? n_pen nd); [apply IH|].
+  rewrite walk_sig. destruct (walk W lvs cs lvB _ _ nd None best st) as [[res best'] st']. destruct res; try apply IH; reflexivity.
+Qed.
+End Signature.
+
+Theorem first_token_spaces_irrelevant W lvs fm cs i t lvl tp g c gi ty win fp inv stk sp1 sp2 ln ml kids rest st ws :
+  inv <> Some DR_MustNotBreak ->
+  find_optimal_solution W lvs fm cs (mkLV i t lvl tp g (mkTR gi ty win fp inv stk sp1 ln ml kids :: rest) c) st ws FD_Break
+  = find_optimal_solution W lvs fm cs (mkLV i t lvl tp g (mkTR gi ty win fp inv stk sp2 ln ml kids :: rest) c) st ws FD_Break.
+Proof.
+  intros Hinv. unfold find_optimal_solution. cbn [lv_recs tr_inv tr_ml tr_sp tr_len]. unfold bid.
+  destruct inv as [[]|]; try congruence; cbn [negb andb];
+    try (destruct (child_lines_solutions _ _ _ _ _ _ _ _ _ _ _ _ _ _) as [st1 sols] eqn:E1;
+         match goal with |- context [child_lines_solutions ?a ?b ?c ?d ?e ?r ?f ?g ?h ?i ?j ?k ?l ?m] =>
+           replace (child_lines_solutions a b c d e r f g h i j k l m) with (st1, sols) by (rewrite <- E1; reflexivity) end;
+         apply main_loop_sig); reflexivity.
+Qed.
+
 Print Assumptions solve_ok.
+Print Assumptions walk_no_fuel.
+Print Assumptions find_optimal_solution_no_fuel.
+Print Assumptions first_token_spaces_irrelevant.
